@@ -230,7 +230,7 @@ fn main() -> Result<()> {
     #[cfg(maidsafe_safe_network_verif)]
     if let Some(mode) = env::var_os("VERIF_DUMP_OPT") {
         println!("{opt:#?}");
-        if mode != "effects" {
+        if mode != "effects" && mode != "contacts" {
             return Ok(());
         }
     }
@@ -298,8 +298,10 @@ fn main() -> Result<()> {
     bootstrap_cache.sync_and_flush_to_disk(true)?;
 
     // verification hook, second half: the start-up effects are on disk now; report and stop
+    // (VERIF_DUMP_OPT=contacts reports the same and goes on to the third hook, after the initial peers
+    // have been gathered)
     #[cfg(maidsafe_safe_network_verif)]
-    if env::var_os("VERIF_DUMP_OPT").is_some_and(|mode| mode == "effects") {
+    if let Some(mode) = env::var_os("VERIF_DUMP_OPT").filter(|mode| mode == "effects" || mode == "contacts") {
         info!("verification run: stopping after the start-up effects");
         println!("VERIF_EFFECTS root_dir={root_dir:?} log_output_dest={log_output_dest:?}");
         // the EVM network main() resolved above (sub-command and/or environment)
@@ -324,7 +326,9 @@ fn main() -> Result<()> {
             *version::IDENTIFY_CLIENT_VERSION_STR.read().expect("IDENTIFY_CLIENT_VERSION_STR"),
             *version::REQ_RESPONSE_VERSION_STR.read().expect("REQ_RESPONSE_VERSION_STR"),
         );
-        return Ok(());
+        if mode == "effects" {
+            return Ok(());
+        }
     }
 
     let msg = format!(
@@ -351,6 +355,14 @@ fn main() -> Result<()> {
     #[cfg(feature = "local")]
     rt.spawn(init_metrics(std::process::id()));
     let initial_peres = rt.block_on(opt.peers.get_addrs(None, Some(100)))?;
+
+    // verification hook, third part: the initial peers main() gathered from the peers arguments
+    // (whatever contact endpoints were queried on the way went through the process's HTTP(S) proxy)
+    #[cfg(maidsafe_safe_network_verif)]
+    if env::var_os("VERIF_DUMP_OPT").is_some_and(|mode| mode == "contacts") {
+        println!("VERIF_PEERS initial={initial_peres:?}");
+        return Ok(());
+    }
     debug!("Node's owner set to: {:?}", opt.owner);
     let restart_options = rt.block_on(async move {
         let mut node_builder = NodeBuilder::new(
